@@ -6,6 +6,7 @@
 (*                                                                         *)
 (*   [st |-> "raw",  k, y, mo, d, h, mi, s, us, tz]   lexical fields as written (24:00:00, Feb 29, year 0) *)
 (*   [st |-> "val",  k, y, mo, d, h, mi, s, us, tz]   a value of kind k in "dateTime" | "date" | "time"   *)
+(*   [st |-> "gval", k, y, mo, ..., tz]                a gYear / gYearMonth value (construction only)       *)
 (*   [st |-> "rawdur", k, neg, yy, mm, dd, hh, mi, ss, us]   a duration literal as written                  *)
 (*   [st |-> "dur",  k, neg, m, d, s, us]              a duration value (Durations.tla)                    *)
 (*   [st |-> "cmp",  r]   [st |-> "comps", ...]   [st |-> "dcomps", ...]   [st |-> "err"]   terminal       *)
@@ -46,6 +47,7 @@ Val(k, ly, mo, d, h, mi, s, us, tz) ==
 Err == [st |-> "err"]
 IsVal(v) == v.st = "val"
 HasDate(v) == v.k \in {"dateTime", "date"}
+GKinds == {"gYear", "gYearMonth"}      \* only lexical -> value -> lexical (no arithmetic in F&O)
 AY(v) == Astro(Xsd, v.y)
 
 (* local wall-clock stamp; a time lives on day 0 *)
@@ -65,7 +67,9 @@ FromLocal(k, st, tz) ==
 (* lexical -> value (the constructor / fromstring): year 0 only exists in XSD 1.1, the day must
    exist in that month of that year, 24:00:00 is the first instant of the next day *)
 ConstructV(r) ==
-  IF r.k = "time" THEN FromLocal("time", NormStamp(0, r.h * 3600 + r.mi * 60 + r.s, r.us), r.tz)
+  IF r.k \in GKinds
+  THEN IF ValidLexYear(Xsd, r.y) THEN [r EXCEPT !.st = "gval"] ELSE Err
+  ELSE IF r.k = "time" THEN FromLocal("time", NormStamp(0, r.h * 3600 + r.mi * 60 + r.s, r.us), r.tz)
   ELSE IF ~ValidLexYear(Xsd, r.y) THEN Err
   ELSE IF ~ValidCivil(<<Astro(Xsd, r.y), r.mo, r.d>>) THEN Err
   ELSE FromLocal(r.k, LocalStamp(Astro(Xsd, r.y), r.mo, r.d, r.h, r.mi, r.s, r.us), r.tz)
@@ -120,7 +124,7 @@ SmallTimes == {<<0, 0, 0, 0>>, <<12, 30, 15, 50000>>, <<23, 59, 59, 999999>>, <<
 TinyTimes  == {<<0, 0, 0, 0>>, <<23, 59, 59, 999999>>}
 Times == IF GridName = "tiny" THEN TinyTimes ELSE IF GridName = "small" THEN SmallTimes ELSE FullTimes
 FullTZs  == {NoTZ, 0, 840, -840, 330, -570}
-SmallTZs == {NoTZ, 0, -840, 330, -570}
+SmallTZs == {NoTZ, 0, -840, -570}
 TinyTZs  == {NoTZ, -570}
 TZs == IF GridName = "tiny" THEN TinyTZs ELSE IF GridName = "small" THEN SmallTZs ELSE FullTZs
 
@@ -130,6 +134,8 @@ RawValues ==
   {Raw("dateTime", y, md, t, tz) : y \in Years, md \in MonthDays, t \in Times, tz \in TZs}
   \cup {Raw("date", y, md, <<0, 0, 0, 0>>, tz) : y \in Years, md \in MonthDays, tz \in TZs}
   \cup {Raw("time", 0, <<0, 0>>, t, tz) : t \in FullTimes, tz \in FullTZs}
+  \cup {Raw("gYear", y, <<0, 0>>, <<0, 0, 0, 0>>, tz) : y \in Years, tz \in TZs}
+  \cup {Raw("gYearMonth", y, <<2, 0>>, <<0, 0, 0, 0>>, tz) : y \in Years, tz \in TZs}
 
 RawDur(k, neg, yy, mm, dd, hh, mi, ss, us) ==
   [st |-> "rawdur", k |-> k, neg |-> neg, yy |-> yy, mm |-> mm, dd |-> dd, hh |-> hh, mi |-> mi, ss |-> ss, us |-> us]
@@ -329,7 +335,8 @@ LawsOf(v) ==
 (* 24:00:00 is the first instant of the next day; a literal is rejected only for year 0 (XSD 1.0) or a
    day that the month does not have *)
 LawConstruct(r, v) ==
-  (r.st = "raw" /\ HasDate(r)) =>
+  /\ (r.st = "raw" /\ r.k \in GKinds) => ((v = Err) <=> (Xsd = "10" /\ r.y = 0))
+  /\ (r.st = "raw" /\ HasDate(r)) =>
      /\ (v = Err) <=> (~ValidLexYear(Xsd, r.y) \/ r.d > DaysInMonth(Astro(Xsd, r.y), r.mo))
      /\ (IsVal(v) /\ r.h = 24) => Local(v) = <<DaysFromCivil(Astro(Xsd, r.y), r.mo, r.d) + 1, 0, 0>>
      /\ (IsVal(v) /\ r.h < 24) => <<v.y, v.mo, v.d, v.h, v.mi, v.s, v.us, v.tz>> = <<r.y, r.mo, r.d, r.h, r.mi, r.s, r.us, r.tz>>
